@@ -320,8 +320,21 @@ def t_seeds(shard, nshards, seed, ev, known, n=40, seeds=(0, 1, 2, 3)):
     return out
 
 
+def _smaller_history(case):
+    ops = case["ops"]
+    for i in range(len(ops)):
+        if sum(1 for o in ops if o[0] == "run") > 1 or ops[i][0] != "run":
+            yield dict(case, ops=ops[:i] + ops[i + 1 :])
+    for i, op in enumerate(ops):
+        lines = op[2].split("\n")
+        if len(lines) > 2:
+            for j in range(len(lines) - 1):
+                yield dict(case, ops=ops[:i] + [[op[0], op[1], "\n".join(lines[:j] + lines[j + 1 :])]] + ops[i + 1 :])
+
+
 def t_history(shard, nshards, seed, ev, known, n=30):
-    return core.hyp_drive(_history_case(), check_history, n, seed, ev, known, check_name="history", shrink=False)
+    fs = core.hyp_drive(_history_case(), check_history, n, seed, ev, known, check_name="history", shrink=False)
+    return [core.greedy_minimize(f, check_history, _smaller_history, budget=40) for f in fs]
 
 
 def t_nosalt(shard, nshards, seed, ev, known, n=100):
